@@ -176,6 +176,7 @@ type stageFailure struct {
 	Stage string `json:"stage"` // render compile compile-u build-o build-u build-r run
 	Diag  string `json:"diag"`
 	Timeout bool `json:"timeout,omitempty"`
+	Hang    bool `json:"hang,omitempty"` // the runner's watchdog: a compiled variant was still running long after the oracle side had completed the same case
 }
 
 type batchResult struct {
@@ -584,6 +585,13 @@ func (t *tools) runRunner(b *batch, race bool) ([]Record, string, *stageFailure)
 			rep = rep[:2500]
 		}
 		return recs, lastBegin, &stageFailure{Stage: "run", Diag: "race detector report:\n" + rep}
+	}
+	if i := strings.Index(rr.out, "\nHANG "); i >= 0 {
+		l := rr.out[i+1:]
+		if j := strings.IndexByte(l, '\n'); j >= 0 {
+			l = l[:j]
+		}
+		return recs, lastBegin, &stageFailure{Stage: "run", Diag: l, Hang: true}
 	}
 	if !done {
 		diag := lastLines(rr.out, 25)
